@@ -37,6 +37,15 @@ def gen_cases(rng, tier, ctx):
                 for m in (63, 1, 62, 32):
                     cs.append({'line': gen.encode_line(d, gen.DEFAULT, m, mac, f, None), 'cat': 'envelope',
                                'cfg': dict(data=d, wl=gen.DEFAULT, modes=m, macros=mac, fnc1=f, eci=None)})
+    # tiny single-symbol / two-symbol lists with every way of writing codewords in front of the message (FNC1, macro, ECI
+    # designators of one, two and three codewords): the early capacity gates and the reserve arithmetic
+    for wl in ([0], [1], [24], [0, 1], [2]):
+        for e in (None, 0, 126, 127, 16382, 16383, 999999):
+            for f in (0, 1):
+                for d in ([], [65], [65, 66, 67, 68], gen.H05 + gen.TRAIL, gen.H05 + [65] + gen.TRAIL):
+                    for m in (63, 62, 32):
+                        cs.append({'line': gen.encode_line(d, wl, m, 1, f, e), 'cat': 'tiny-list-options',
+                                   'cfg': dict(data=d, wl=wl, modes=m, macros=1, fnc1=f, eci=e)})
     for e in (0, 126, 127, 16382, 16383, 999999):
         cs.append({'line': gen.encode_line([65, 66], gen.DEFAULT, 63, 1, 0, e), 'cat': 'eci',
                    'cfg': dict(data=[65, 66], wl=gen.DEFAULT, modes=63, macros=1, fnc1=0, eci=e)})
